@@ -73,6 +73,10 @@ pub fn check_cover(run: &mut Run, set: &[MCell], ids: &[u64], ids2: &[u64], flav
         run.violation("C08.duplicates", case(), format!("compact output contains a duplicate ({} cells)", out.len()));
     }
     let r = set.iter().map(|c| c.res).max().unwrap_or(1).max(1);
+    if let Some(fine) = cells.iter().find(|c| c.res > r) {
+        run.violation("C08.coverage", case(), format!("the result contains {} of resolution {}, finer than every input (finest input resolution {r})", hu(encode(*fine)), fine.res));
+        return Some(out);
+    }
     let r = (r + (ids.len() % 3) as i32).min(MAX_RES);
     let want = coverage(set, r);
     let got = coverage(&cells, r);
@@ -264,7 +268,20 @@ fn run_c08(ctx: &Ctx) -> Run {
         }
         let n = ctx.n(200_000, 6_000_000) / threads as u64;
         for _ in 0..n {
-            let flavour = *rng.pick(&["antichain", "complete", "multiroot", "lowres", "lowres", "overlap", "overlap", "lookalike", "lookalike"]);
+            let flavour = *rng.pick(&["antichain", "complete", "multiroot", "lowres", "lowres", "overlap", "overlap", "ancestors", "lookalike", "lookalike"]);
+            if rng.chance(0.1) {
+                // history: a call that fails half way (a complete sibling group on a face that does not exist, after some valid
+                // cells) must leave nothing behind for the next call on this thread
+                let mut hostile: Vec<u64> = gen::cell_set(&mut rng, "antichain").iter().take(20).map(|c| encode(*c)).collect();
+                let r = 2 + rng.below(27) as i32;
+                let c = gen::random_cell(&mut rng, r);
+                if let Some(p) = parent_at(c, c.res - 1) {
+                    let top = 60 + rng.below(4);
+                    hostile.extend(children_at(p, c.res).into_iter().map(|k| (encode(k) & ((1u64 << 58) - 1)) | (top << 58)));
+                }
+                let _ = compact(&hostile);
+                run.count("history.preceded_by_a_call_on_hostile_ids");
+            }
             let set = gen::cell_set(&mut rng, flavour);
             run.count(&format!("flavour.{flavour}"));
             let a = present(&mut rng, &set);
